@@ -1,0 +1,35 @@
+//! Verification hooks (cargo feature `verif`, off by default): scheduling points in
+//! `StorageResolver::get` and a counter of bytes produced by stream filters.
+//! All of this is inert unless a handler is installed by a test harness.
+use std::sync::atomic::{AtomicU64, AtomicUsize, Ordering};
+
+static HANDLER: AtomicUsize = AtomicUsize::new(0);
+static DECODED_BYTES: AtomicU64 = AtomicU64::new(0);
+
+/// before the recursion guard's check-and-push
+pub const GET_ENTER: u32 = 1;
+/// after the key was pushed onto the guard stack
+pub const GET_PUSHED: u32 = 2;
+/// after the cache returned (value computed or fetched)
+pub const GET_COMPUTED: u32 = 3;
+/// in the drop guard, before the key is popped
+pub const GET_POP: u32 = 4;
+
+pub fn set_handler(f: Option<fn(u32)>) {
+    HANDLER.store(f.map(|f| f as usize).unwrap_or(0), Ordering::SeqCst);
+}
+#[inline]
+pub fn point(site: u32) {
+    let h = HANDLER.load(Ordering::SeqCst);
+    if h != 0 {
+        let f: fn(u32) = unsafe { std::mem::transmute(h) };
+        f(site);
+    }
+}
+#[inline]
+pub fn add_decoded(n: usize) {
+    DECODED_BYTES.fetch_add(n as u64, Ordering::Relaxed);
+}
+pub fn decoded_bytes() -> u64 {
+    DECODED_BYTES.load(Ordering::Relaxed)
+}
